@@ -122,6 +122,9 @@ func (a *Analyzer) doCall(fr *frame, site ssa.Instruction, c *ssa.CallCommon, st
 			r.st.Env = env
 			r.st.Defers = append([]*deferred(nil), savedDefers...)
 			v := a.postInline(fn, callArgs, r.val, r.st)
+			if a.OnInlined != nil {
+				a.OnInlined(fn, callArgs, v, r.st)
+			}
 			bind(r.st, v)
 			outs = append(outs, r.st)
 		}
@@ -461,11 +464,16 @@ func (a *Analyzer) external(fr *frame, site ssa.Instruction, name string, sig *t
 		u := &Unknown{ID: a.id(), Typ: sig.Results().At(0).Type(), Desc: base}
 		if len(args) > 0 {
 			if vs, ok := args[0].(*Slice); ok && vs.Base.Elems != nil {
+				var wraps []string
 				for _, e := range vs.Base.Elems {
 					if nilness(e) == nilNon {
 						u.Nilness = nilNon
 					}
+					if eu, ok := e.(*Unknown); ok && eu.Desc != "" && eu.Desc != "fmt.Errorf" {
+						wraps = append(wraps, eu.Desc)
+					}
 				}
+				u.Desc = "errors.Join(" + strings.Join(wraps, ",") + ")"
 			}
 		}
 		return one(u)
